@@ -9,6 +9,7 @@ from vstat.dataflow import rd_of
 from vstat.sigs import bind
 from vstat import algebra
 from .c03 import default_n
+from .ctor import ctor_stores
 
 CT = "virocon.contours"
 P = lambda n: ("param", n)
@@ -32,6 +33,9 @@ def run(prog, rep):
         default_n(prog, rep, f"{CT}.{cls}", "C04.n")
         infos[cls] = one(prog, rep, cls, comb)
     sibling(prog, rep, infos)
+    ctor_stores(prog, rep, "C04.ctor", f"{CT}.AndContour", ["model", "alpha", "deg_step", "sample", "allowed_error"])
+    ctor_stores(prog, rep, "C04.ctor", f"{CT}.OrContour", ["model", "alpha", "deg_step", "sample", "allowed_error", "lowest_theta", "highest_theta"])
+    rep.expect_min("C04.ctor", 4)
     rep.expect_min("C04.n", 4)
     rep.expect_min("C04.pred", 5)
     rep.expect_min("C04.exit", 6)
